@@ -95,6 +95,8 @@ Proof.
     rewrite Ia. cbn. exact Ifull.
   - (* CprTimeout *)
     rewrite Ic. cbn. exact Ifull.
+  - (* Restore *)
+    constructor; cbn [en ch out px cp app running loopq]; assumption.
 Qed.
 
 Lemma I0_init : forall c r, I0 (init2 c r).
@@ -309,6 +311,8 @@ Proof.
       cbn [fst snd] in H. destruct H as [T [Ok' B']].
       constructor; cbn [en ch out px]; assumption.
     + constructor; cbn [en ch out px]; assumption.
+  - (* Restore *)
+    constructor; cbn [en ch out px cp app running loopq lclosed lid]; assumption.
 Qed.
 
 Definition init_running2 (c r : bool) : st := step (init2 c r) LAppStart.
@@ -339,6 +343,18 @@ Proof.
   rewrite out_text_otext, <- i1_text0, <- !app_assoc. reflexivity.
 Qed.
 
+Lemma alive_raw : forall ls, forallb app_alive ls = true -> forallb raw_label ls = true.
+Proof.
+  induction ls as [|l ls IH]; [reflexivity|]. cbn [forallb]. intros H. apply andb_true_iff in H.
+  destruct H as [H1 H2]. rewrite (IH H2), andb_true_r. destruct l; try reflexivity; discriminate.
+Qed.
+
+Lemma nolife_raw : forall ls, forallb no_lifecycle ls = true -> forallb raw_label ls = true.
+Proof.
+  induction ls as [|l ls IH]; [reflexivity|]. cbn [forallb]. intros H. apply andb_true_iff in H.
+  destruct H as [H1 H2]. rewrite (IH H2), andb_true_r. destruct l; try reflexivity; discriminate.
+Qed.
+
 (* ---- the statements used by Props/C20.v ---- *)
 Lemma in_order_noapp : forall c r ls,
   forallb no_lifecycle ls = true ->
@@ -346,7 +362,7 @@ Lemma in_order_noapp : forall c r ls,
   pipeline s = stream ls /\ forallb ev_ok (out s) = true.
 Proof.
   intros c r ls H. cbn zeta. pose proof (I0_run ls (init2 c r) (I0_init c r) H) as I.
-  split; [|apply I]. rewrite (pipeline_I0 _ I), ptext_run. reflexivity.
+  split; [|apply I]. rewrite (pipeline_I0 _ I), (ptext_run _ _ (nolife_raw _ H)). reflexivity.
 Qed.
 
 Lemma in_order_running : forall c r ls,
@@ -357,7 +373,7 @@ Proof.
   intros c r ls H. cbn zeta.
   destruct (I1_run ls (init_running2 c r) (I1_init c r) (SI_init_running c r) H) as [I C].
   split; [|split; [apply I|]].
-  - rewrite (pipeline_I1 _ I), ptext_run. reflexivity.
+  - rewrite (pipeline_I1 _ I), (ptext_run _ _ (alive_raw _ H)). reflexivity.
   - destruct I. destruct i1_brk0 as [b [B _]]. rewrite B. discriminate.
 Qed.
 
@@ -384,6 +400,7 @@ Proof.
   - destruct (fth (px s)) as [| | |acc dn [k|]| |] eqn:E; try (rewrite E; exact F).
     + destruct (Nat.eqb k (lid (en s)) && negb (lclosed (en s))); cbn [px set_fth fth]; destruct dn; discriminate.
     + cbn [px set_fth fth]. destruct dn; discriminate.
+  - destruct (patched (en s)); [|exact F]. cbn [px]. unfold do_write. destruct (split_last d) as [[b a]|]; exact F.
 Qed.
 
 Lemma never_dies : forall c r ls, fth (px (run (init2 c r) ls)) <> FCrash.
